@@ -82,10 +82,19 @@ package state
 //@   grants v: result == nil ==> blockValidated(block, state.Validators, state.LastBlockHeight)
 // ASSUMED about ApplyBlock where block sync uses it: the validator set of the state it returns is well formed (unique
 // non-negative powers within the cap are the subject of C08) with an unset or correct total cache.
+// ... and about its sequencing (its body is validateBlock, execBlockOnProxyApp, save responses, updateState, Commit, save
+// state - the two callees that talk to the application are under contract below; the body itself is not verified
+// because validateBlock's exact contract is stated for a fresh ghost state): it must be entered between blocks with the
+// application at the height of the state passed in; it refuses a block that is not the next one; on success the
+// application has committed exactly that block and the returned state is at its height.
 //@ func BlockExecutor.ApplyBlock
 //@   trusted
-//@   assigns heap
+//@   requires between: abciPhase == 0
+//@   requires sync: mockActive || appH == state.LastBlockHeight
+//@   assigns heap, abciPhase, abciBegun, abciDelivered, appH, mpLocked, mpFlushed
 //@   ensures wf: result2 == nil ==> (result0.Validators != nil && wfPowers(result0.Validators) && wfCached(result0.Validators))
+//@   ensures committed: result2 == nil ==> (abciPhase == 0 && result0.LastBlockHeight == old(block.Header.Height) && (mockActive || appH == old(block.Header.Height)) &&
+//@     | (state.LastBlockHeight == 0 || old(block.Header.Height) == state.LastBlockHeight + 1))
 
 // ---- C08: historical validator sets ----
 //@ import tmstate github.com/tendermint/tendermint/proto/tendermint/state
@@ -130,3 +139,108 @@ package state
 //@ func dbStore.LoadValidators
 //@   atcall loadValidatorsInfo which: arg1 == height || (valInfo != nil && arg1 == ite(height - height % 100000 > valInfo.LastHeightChanged, height - height % 100000, valInfo.LastHeightChanged))
 //@   atcall ValidatorSet.IncrementProposerPriority by: arg1 == height - lastStoredHeight && lastStoredHeight == ite(height - height % 100000 > valInfo.LastHeightChanged, height - height % 100000, valInfo.LastHeightChanged)
+
+// ---- C05: what the application sees on its consensus connection ----
+//@ import proxy github.com/tendermint/tendermint/proxy
+//@ import mempl github.com/tendermint/tendermint/mempool
+//@ import abci github.com/tendermint/tendermint/abci/types
+//@ import log github.com/tendermint/tendermint/libs/log
+
+// Typestate of the consensus connection: abciPhase 0 = between blocks, 1 = block begun, 2 = block ended;
+// abciBegun = height of the block begun; abciDelivered = transactions delivered of it; appH = the height the
+// application has committed; mockActive = the connection being driven replays stored responses (handshake) instead
+// of reaching the application.
+//@ ghost var abciPhase int
+//@ ghost var abciBegun int64
+//@ ghost var abciDelivered int
+//@ ghost var appH int64
+//@ ghost var mockActive bool
+//@ ghost var mpLocked bool
+//@ ghost var mpFlushed bool
+
+// InitChain only while the application has committed nothing.
+//@ extern proxy.AppConnConsensus.InitChainSync
+//@   requires genesis: appH == 0 && abciPhase == 0
+//@   assigns nothing
+// BeginBlock only between blocks, and for the height right after the one the application has committed (the replay of
+// stored responses repeats the committed height itself).
+//@ extern proxy.AppConnConsensus.BeginBlockSync
+//@   requires between: abciPhase == 0
+//@   requires next: ite(mockActive, arg0.Header.Height == appH, appH == 0 || arg0.Header.Height == appH + 1)
+//@   assigns abciPhase, abciBegun, abciDelivered
+//@   sets abciPhase = 1 when result1 == nil
+//@   sets abciBegun = arg0.Header.Height when result1 == nil
+//@   sets abciDelivered = 0 when true
+//@ extern proxy.AppConnConsensus.DeliverTxAsync
+//@   requires begun: abciPhase == 1
+//@   assigns abciDelivered
+//@   sets abciDelivered = old(abciDelivered) + 1 when true
+//@ extern proxy.AppConnConsensus.EndBlockSync
+//@   requires begun: abciPhase == 1 && arg0.Height == abciBegun
+//@   assigns abciPhase
+//@   sets abciPhase = 2 when result1 == nil
+//@ extern proxy.AppConnConsensus.CommitSync
+//@   requires ended: abciPhase == 2
+//@   assigns abciPhase, appH
+//@   sets abciPhase = 0 when result1 == nil
+//@   sets appH = abciBegun when result1 == nil
+//@ extern proxy.AppConnConsensus.SetResponseCallback
+//@   assigns nothing
+//@ extern proxy.AppConnConsensus.Error
+//@   assigns nothing
+//@ extern log.Logger.Debug
+//@   assigns nothing
+//@ extern log.Logger.Info
+//@   assigns nothing
+//@ extern log.Logger.Error
+//@   assigns nothing
+
+//@ func getBeginBlockValidatorInfo
+//@   trusted
+//@   assigns nothing
+
+// A block is presented as BeginBlock, its transactions one by one in block order, EndBlock for the same height.
+//@ func execBlockOnProxyApp
+//@   requires between: abciPhase == 0
+//@   requires next: ite(mockActive, block.Header.Height == appH, appH == 0 || block.Header.Height == appH + 1)
+//@   ensures ended: result1 == nil ==> (abciPhase == 2 && abciBegun == block.Header.Height && abciDelivered == len(block.Data.Txs))
+//@   atcall AppConnConsensus.BeginBlockSync header: arg0.Header.Height == block.Header.Height
+//@   atcall AppConnConsensus.DeliverTxAsync inorder: abciDelivered < len(block.Data.Txs) && arg0.Tx == block.Data.Txs[abciDelivered]
+//@   atcall AppConnConsensus.EndBlockSync all: abciDelivered == len(block.Data.Txs)
+//@   loop 1 invariant t: abciPhase == 0
+//@   loop 2 invariant idx: 0 <= rangeindex + 1 && rangeindex + 1 <= len(block.Data.Txs) && abciDelivered == rangeindex + 1 && abciPhase == 1 && abciBegun == block.Header.Height
+
+// Executing and committing a stored block on the real application (handshake replay): afterwards the application has
+// committed exactly this height.
+//@ func ExecCommitBlock
+//@   requires between: abciPhase == 0 && !mockActive
+//@   requires next: appH == 0 || block.Header.Height == appH + 1
+//@   ensures committed: result1 == nil ==> (abciPhase == 0 && appH == block.Header.Height)
+
+// The mempool is locked and flushed from before the commit request until after it has been updated.
+//@ extern mempl.Mempool.Lock
+//@   assigns mpLocked
+//@   sets mpLocked = true when true
+//@ extern mempl.Mempool.Unlock
+//@   assigns mpLocked, mpFlushed
+//@   sets mpLocked = false when true
+//@   sets mpFlushed = false when true
+//@ extern mempl.Mempool.FlushAppConn
+//@   requires locked: mpLocked
+//@   assigns mpFlushed
+//@   sets mpFlushed = (result == nil) when true
+//@ extern mempl.Mempool.Update
+//@   requires locked: mpLocked
+//@   assigns nothing
+//@ func TxPreCheck
+//@   trusted
+//@   assigns nothing
+//@ func TxPostCheck
+//@   trusted
+//@   assigns nothing
+//@ func BlockExecutor.Commit
+//@   requires ended: abciPhase == 2 && !mpLocked
+//@   ensures unlocked: !mpLocked
+//@   ensures committed: result2 == nil ==> (abciPhase == 0 && appH == old(abciBegun))
+//@   atcall AppConnConsensus.CommitSync quiet: mpLocked && mpFlushed
+//@   atcall Mempool.Update locked: mpLocked && abciPhase == 0 && arg0 == block.Header.Height
